@@ -738,17 +738,41 @@ module upgrade
 props C16
 use common core
 use common vote
+use nns ownership
 dialect neovm
 
 // C16: an upgrade runs only from a supported older version: oldest supported <= deployed version < new version.
 pure lastarg(d Any) Int = asint(aslist(d)[len(aslist(d)) - 1])
 
+// the 0.17 -> 0.18 migration makes the TLDs committee-owned: name records of names with a dot and everything outside the
+// name/balance/owner-index prefixes (records 0x22, roots 0x20, price, supply) are untouched, a TLD record keeps name,
+// expiration and admin and loses its owner; no name appears or disappears. From 0.18 on nothing is touched.
+// (After this migration totalSupply still counts the TLDs that 0.17 had registered as ordinary tokens while their balances
+// are gone: the NEP-11 identity of C10 is stated for histories that start from a fresh deployment.)
+pure nsAt(s Store, k Bytes) NameState = deser_NameState(s.get(k))
+pure isTLDrec(s Store, k Bytes) Bool = memsearch(nsAt(s, k).Name, ".") == 0 - 1
+
 // (this contract speaks about update invocations only: the first deployment registers the predefined TLDs, which is C10/C18)
 func _deploy(data, isUpdate)
   requires isUpdate
   ensures [C16] PrevVersion <= lastarg(data) && lastarg(data) < Version
+  ensures [C16] lastarg(data) >= 18000 ==> store == old(store) && notifs == old(notifs)
+  ensures [C16] forall k Bytes {store.opt(k)} :: !prefix("\x21", k) && !prefix("\x01", k) && !prefix("\x02", k) ==> store.opt(k) == old(store).opt(k)
+  ensures [C16] forall k Bytes {store.opt(k)} :: prefix("\x21", k) && !old(store).has(k) ==> !store.has(k)
+  ensures [C16] forall k Bytes {store.opt(k)} :: prefix("\x21", k) && old(store).has(k) && !isTLDrec(old(store), k) ==> store.opt(k) == old(store).opt(k)
+  ensures [C16] lastarg(data) < 18000 ==> forall k Bytes {store.opt(k)} :: prefix("\x21", k) && old(store).has(k) && isTLDrec(old(store), k) ==> store.has(k)
+        && nsAt(store, k).Name == nsAt(old(store), k).Name && nsAt(store, k).Expiration == nsAt(old(store), k).Expiration
+        && nsAt(store, k).Admin == nsAt(old(store), k).Admin && isnil(nsAt(store, k).Owner)
+  ensures [C16] notifs == old(notifs)
   loop 0
-    invariant true
+    invariant notifs == old(notifs)
+    invariant forall k Bytes {store.opt(k)} :: !prefix("\x21", k) && !prefix("\x01", k) && !prefix("\x02", k) ==> store.opt(k) == old(store).opt(k)
+    invariant forall k Bytes {store.opt(k)} :: prefix("\x21", k) && !old(store).has(k) ==> !store.has(k)
+    invariant forall k Bytes {store.opt(k)} :: prefix("\x21", k) && old(store).has(k) && !isTLDrec(old(store), k) ==> store.opt(k) == old(store).opt(k)
+    invariant forall k Bytes {store.opt(k)} :: prefix("\x21", k) && old(store).has(k) && $it.idx(k) >= $it.pos ==> store.opt(k) == old(store).opt(k)
+    invariant forall j Int {$it.key(j)} :: 0 <= j && j < $it.pos && isTLDrec(old(store), $it.key(j)) ==> store.has($it.key(j))
+        && nsAt(store, $it.key(j)).Name == nsAt(old(store), $it.key(j)).Name && nsAt(store, $it.key(j)).Expiration == nsAt(old(store), $it.key(j)).Expiration
+        && nsAt(store, $it.key(j)).Admin == nsAt(old(store), $it.key(j)).Admin && isnil(nsAt(store, $it.key(j)).Owner)
   loop 1
     invariant true
 @*/
